@@ -6,7 +6,6 @@ import (
 
 	"github.com/oxia-db/oxia/common/process"
 
-	"io"
 	"log/slog"
 	"os"
 	"testing"
@@ -17,7 +16,7 @@ import (
 var tmpRoot string
 
 func TestMain(m *testing.M) {
-	slog.SetDefault(slog.New(slog.NewTextHandler(io.Discard, nil)))
+	slog.SetDefault(slog.New(slog.NewTextHandler(evid.WarnLog(), &slog.HandlerOptions{Level: slog.LevelWarn})))
 	var err error
 	base := os.Getenv("VERIF_TMP")
 	if base == "" {
